@@ -248,6 +248,31 @@ def run(ctx):
             if IN[g.node_of(c).id] is not None:
                 retry_sites.append((c, rsn, IN))
     ctx.count_min("retry branch (`….error is not None`) leading to an Assignment in priority-pool", len(retry_sites), 1)
+    def _half_reached(z) -> bool:
+        """this condition says that a doubled request reached half of the pool"""
+        if z[0] == "cmp" and z[1] == "<=" and z[2] == "0.5":
+            return True
+        if z[0] == "or":
+            return all(_half_reached(k) for k in z[1])
+        if z[0] == "and":
+            return any(_half_reached(k) for k in z[1])
+        return False
+    seen_branch = set()
+    for t, rsn in branches:
+        for c in sites:
+            jl = enclosing_for(c, f.node)
+            if jl is None or (t, id(jl)) in seen_branch:
+                continue
+            IN = g.facts(blocked={g.node_of(jl).id}, start=t)
+            if IN[g.node_of(c).id] is None:
+                continue
+            seen_branch.add((t, id(jl)))
+            hid = g.node_of(jl).id
+            asg_ids = {g.node_of(x).id for x in sites}
+            lost = g.path_avoiding(t, {hid, g.exit.id}, asg_ids, edge_ok=lambda a, b, lab: not (isinstance(lab, tuple) and lab[0] == "cond" and _half_reached(lab[1])))
+            ctx.ob(5, "K2", "a retry is given up only when its doubled request reaches half of the pool: every way from the retry branch to the next job that builds no "
+                   "Assignment passes that test (a retry is never dropped for another reason)", lost is None, f, c, construct="retry dropped only under the half-pool test",
+                   detail="no way past the Assignment other than the half-pool test" if lost is None else g.describe_path(lost))
     for c, rsn, IN in retry_sites:
         fs = IN[g.node_of(c).id]
         within = {i for i, v in IN.items() if v is not None}
